@@ -23,7 +23,7 @@ open ZygoVerif.Core ZygoVerif.VM
 mutual
 def Fv : Expr → Bool
   | .int _ | .bool _ | .str _ | .nilLit | .sym _ => true
-  | .begin_ es => !es.isEmpty && FvList es
+  | .begin_ es => FvList es
   | .def_ _ e => Fv e
   | .set_ _ e => Fv e
   | .cond arms d => FvArms arms && Fv d
@@ -174,9 +174,12 @@ theorem compile_total_Fv : ∀ (e : Expr), Fv e = true → ∀ isFn c gs,
   | .sym x, _, isFn, c, gs => ⟨_, _, by rw [compile]; rfl, by simp⟩
   | .begin_ es, he, isFn, c, gs => by
     rw [Fv] at he
-    simp only [Bool.and_eq_true, Bool.not_eq_true', List.isEmpty_eq_false_iff] at he
-    rw [compile]
-    exact compileBegin_total_Fv es he.1 he.2 isFn c gs
+    cases es with
+    | nil => exact ⟨[.push .nil], c.tail, by rw [compile]; rfl, by simp⟩   -- (begin) yields nil (fix C04-02)
+    | cons e0 es0 =>
+      rw [compile]
+      · exact compileBegin_total_Fv (e0 :: es0) (by simp) he isFn c gs
+      · intro hh; cases hh
   | .def_ x e, he, isFn, c, gs => by
     rw [Fv] at he
     obtain ⟨ce, t, h1, _⟩ := compile_total_Fv e he isFn { c with tail := false } gs
@@ -230,9 +233,10 @@ theorem compile_total_Fv : ∀ (e : Expr), Fv e = true → ∀ isFn c gs,
     rw [Fv] at he
     simp only [Bool.and_eq_true, Bool.not_eq_true', List.isEmpty_eq_false_iff] at he
     obtain ⟨⟨⟨_, hbody⟩, hbs⟩, hbl⟩ := he
-    obtain ⟨rhs, t1, h1⟩ := compileBinds_total_Fv bs hbs isFn { c with scopes := c.scopes + 1 } seq gs
+    -- since fix C04-08 the initialisers are compiled with the tail flag off, the body with the form's own flag
+    obtain ⟨rhs, t1, h1⟩ := compileBinds_total_Fv bs hbs isFn { c with scopes := c.scopes + 1, tail := false } seq gs
     obtain ⟨b, t2, h2, _⟩ := compileBegin_total_Fv body hbody hbl isFn
-      { tail := t1, scopes := c.scopes + 1, funcname := c.funcname, known := c.known } gs
+      { c with scopes := c.scopes + 1 } gs
     refine ⟨[.addScope] ++ rhs ++ (if seq then [] else (bs.map (fun p => Instr.popStackPutEnv p.1)).reverse)
       ++ b ++ [.removeScope], t2, ?_, by simp⟩
     rw [compile]
@@ -321,7 +325,7 @@ theorem compileArms_total_Fv : ∀ (arms : List (Expr × Expr)), FvArms arms = t
   | (p, b) :: arms, he, isFn, c, gs => by
     rw [FvArms] at he
     simp only [Bool.and_eq_true] at he
-    obtain ⟨pc, _, hp, _⟩ := compile_total_Fv p he.1.1 isFn { c with tail := false, scopes := 0 } gs
+    obtain ⟨pc, _, hp, _⟩ := compile_total_Fv p he.1.1 isFn { c with tail := false } gs   -- `scopes` inherited since fix C04-06
     obtain ⟨bc, _, hb, _⟩ := compile_total_Fv b he.1.2 isFn c gs
     obtain ⟨r, hr⟩ := compileArms_total_Fv arms he.2 isFn c gs
     refine ⟨(pc, bc) :: r, ?_⟩
@@ -817,10 +821,21 @@ theorem vclaimE_succ {n : Nat} (hE : VClaimE n) (hB : VClaimB n) (hC : VClaimC n
     exact sim_sym x n hrel hseg
   | begin_ es =>
     rw [Fv] at he
-    simp only [Bool.and_eq_true, Bool.not_eq_true', List.isEmpty_eq_false_iff] at he
-    rw [compile] at hc
-    rw [Ref.eval]
-    exact hB es he.1 he.2 isFn c gs r hc s rs env pre post hrel hseg
+    cases es with
+    | nil =>
+      rw [compile] at hc; simp only [g_pure_ok] at hc; subst hc
+      rw [Ref.eval]
+      cases n with
+      | zero => rw [Ref.evalBegin]; trivial
+      | succ m =>
+        rw [Ref.evalBegin]
+        · exact sim_push _ hrel hseg
+        · omega
+    | cons e0 es0 =>
+      rw [compile] at hc
+      · rw [Ref.eval]
+        exact hB (e0 :: es0) (by simp) he isFn c gs r hc s rs env pre post hrel hseg
+      · intro hh; cases hh
   | def_ x e1 =>
     rw [Fv] at he
     rw [compile] at hc
